@@ -100,6 +100,15 @@ class Units:
     def stmt(self, st):
         if isinstance(st, ast.Assign) and len(st.targets) == 1:
             t = st.targets[0]
+            if isinstance(t, ast.Tuple) and isinstance(st.value, ast.Tuple) and len(st.value.elts) == len(t.elts) and all(isinstance(x, ast.Name) for x in t.elts):
+                vals = [self.ev(y) for y in st.value.elts]      # parallel assignment: element by element
+                for x, y, v_ in zip(t.elts, st.value.elts, vals):
+                    self.env[x.id] = v_
+                    if self.carries(y) and not self.reduces_traces(y):
+                        self.carry.add(x.id)
+                    else:
+                        self.carry.discard(x.id)
+                return
             v = self.ev(st.value)
             if isinstance(t, ast.Name):
                 self.env[t.id] = v
@@ -243,6 +252,8 @@ class Units:
         if isinstance(e, (ast.Tuple, ast.List)):
             vs = [self.ev(x) for x in e.elts]
             out = CONST
+            if isinstance(e, ast.Tuple) and len({repr(v) for v in vs if v != CONST}) > 1:
+                return TOP        # a tuple is a record, not an array: its fields need not be commensurable
             for v in vs:
                 out = self.same(out, v, e, 'sequence elements')
                 if out is TOP:
